@@ -1,18 +1,536 @@
-import WhatwgUrl.Impl.Host
-import WhatwgUrl.Spec.Url
+import WhatwgUrl.Proofs.IPv4
 /-
-  C07 — IPv4 hosts (interim part; the conformance theorems are merged when ready).
+  C07 — IPv4: the Go host parser's IPv4 routines conform to the standard's IPv4 number parser, ends-in-a-number
+  checker, IPv4 parser and IPv4 serializer.
 -/
 namespace WhatwgUrl.Props.C07
-open WhatwgUrl WhatwgUrl.Impl
+open WhatwgUrl WhatwgUrl.Impl WhatwgUrl.Proofs.IPv4
 
-/-- the serializer prints the four octets of the 32-bit value, most significant first -/
-theorem C07_serialize_octets (n : Nat) :
-    ipv4String n = itoa (n / 2 ^ 24 % 256) ++ [0x2e] ++ itoa (n / 2 ^ 16 % 256) ++ [0x2e] ++ itoa (n / 2 ^ 8 % 256) ++ [0x2e] ++ itoa (n % 256) := rfl
+/-- Number parser conformance: the Go code reports a syntax error exactly when the standard's IPv4 number parser
+    fails; without error the values agree; Go's `strconv.ErrRange` means the standard's (unbounded) value is ≥ 2^63.
+    No ASCII hypothesis is needed (`bc` preserves the number of every byte). -/
+theorem C07_number_conforms (cfg : Cfg) (u : Url) (s : Bytes) (hs : s ≠ []) :
+    let r := parseIPv4Number cfg u s
+    (r.err = .syntax ↔ Spec.parseIPv4Number (asStr s) = none) ∧
+    (r.err = .none → Spec.parseIPv4Number (asStr s) = some r.n) ∧
+    (r.err = .range → ∃ v, Spec.parseIPv4Number (asStr s) = some v ∧ v ≥ 2^63) ∧
+    r.err ≠ .verr ∧ r.url = u := by
+  have he : s.isEmpty = false := by cases s <;> simp_all
+  rw [spec_number_eq]
+  unfold parseIPv4Number
+  simp only [he, Bool.false_eq_true, if_false]
+  generalize (decide (s.length ≥ 2) && (startsWith s (lit "0x") || startsWith s (lit "0X"))) = hx
+  generalize (!hx && decide (s.length ≥ 2) && startsWith s (lit "0")) = ox
+  generalize (if hx = true then List.drop 2 s else if ox = true then List.drop 1 s else s) = d
+  generalize (if hx = true then 16 else if ox = true then 8 else 10) = rdx
+  by_cases h1 : d.isEmpty = true
+  · simp [h1]
+  · by_cases h2 : (!d.all (radixDigit rdx)) = true
+    · simp [h1, h2]
+    · by_cases h3 : digitsVal rdx d ≥ 2 ^ 63
+      · simp [h1, h2, h3]
+      · simp [h1, h2, h3]
 
-/-- a sign is never a radix digit, so a label with a sign is not an IPv4 number (the repaired defect F1) -/
-theorem C07_sign_is_no_digit (r : Nat) : radixDigit r 0x2b = false ∧ radixDigit r 0x2d = false := by
-  unfold radixDigit
-  constructor <;> (repeat' split) <;> decide
+example : lit "0x1f" ≠ [] := by decide
+example : (parseIPv4Number {} {} (lit "0x1f")).err = .none ∧ (parseIPv4Number {} {} (lit "0x1f")).n = 31 := by decide
+example : (parseIPv4Number {} {} (lit "017")).err = .none ∧ (parseIPv4Number {} {} (lit "017")).n = 15 := by decide
+example : (parseIPv4Number {} {} (lit "08")).err = .syntax := by decide
+example : (parseIPv4Number {} {} (lit "9223372036854775808")).err = .range := by decide +kernel
+example : Spec.parseIPv4Number "9223372036854775808".toList = some (2 ^ 63) := by decide +kernel
+
+/-- Ends-in-a-number conformance (any configuration, any bytes). -/
+theorem C07_ends_in_number_conforms (cfg : Cfg) (u : Url) (s : Bytes) :
+    endsInANumber cfg u s = Spec.endsInANumber (asStr s) := by
+  unfold endsInANumber Spec.endsInANumber
+  simp only [splitStr_asStr]
+  simp only [trimE_map]
+  simp only [List.getLast?_map]
+  generalize (if (splitOn 0x2e s).getLast? == some [] then
+    (if (splitOn 0x2e s).length == 1 then [] else (splitOn 0x2e s).dropLast) else splitOn 0x2e s) = P
+  cases P.getLast? with
+  | none => rfl
+  | some last =>
+    simp only [Option.map_some, asStr_isEmpty, asStr_all isDigitN]
+    by_cases hl : last = []
+    · subst hl; rfl
+    · have he : last.isEmpty = false := by cases last <;> simp_all
+      obtain ⟨h1, h2, h3, h4, -⟩ := C07_number_conforms cfg u last hl
+      generalize parseIPv4Number cfg u last = r at *
+      simp only [he, Bool.false_eq_true, if_false, Bool.not_false, Bool.true_and]
+      split
+      · rfl
+      · cases hr : r.err with
+        | none => simp [h2 hr]; decide
+        | verr => exact absurd hr h4
+        | «syntax» => simp [h1.mp hr]; decide
+        | range => obtain ⟨v, hv, -⟩ := h3 hr; simp [hv]; decide
+
+example : endsInANumber {} {} (lit "1.-2") = false := by decide
+example : endsInANumber {} {} (lit "a.0x.") = true := by decide
+example : endsInANumber {} {} (lit "1.2.3.9223372036854775808") = true := by decide +kernel
+
+/-! ### declarative reading of "ends in a number" -/
+
+/-- a label that the standard's IPv4 number parser accepts or that is all ASCII digits -/
+def isNumberLabel (l : Str) : Bool :=
+  (!l.isEmpty && l.all (fun c => isDigitN c.toNat)) ||
+  (l.length ≥ 2 && (l.take 2 == ['0','x'] || l.take 2 == ['0','X']) && (l.drop 2).all (fun c => isHexN c.toNat)) ||
+  (l.length ≥ 2 && l.head? == some '0' && (l.drop 1).all (fun c => isOctN c.toNat))
+
+/-- the last label after removing one trailing empty label; `none` if nothing is left -/
+def lastLabel (s : Str) : Option Str :=
+  let parts := Spec.splitStr '.' s
+  let parts := if parts.getLast? == some [] then (if parts.length == 1 then [] else parts.dropLast) else parts
+  parts.getLast?
+
+private theorem label_eq (l : Str) :
+    (if (!l.isEmpty && l.all (fun c => isDigitN c.toNat)) = true then true else (Spec.parseIPv4Number l).isSome) =
+      isNumberLabel l := by
+  match l with
+  | [] => rfl
+  | [a] => simp [Spec.parseIPv4Number, isNumberLabel]
+  | a :: b :: rest =>
+    by_cases ha : a = '0'
+    · subst ha
+      by_cases hb : b = 'x' ∨ b = 'X'
+      · have key : (if rest = [] then some 0
+            else if (rest.all fun c => isHexN c.toNat) = true then some (Spec.strVal 16 rest) else none).isSome =
+            rest.all fun c => isHexN c.toNat := by
+          cases rest with
+          | nil => rfl
+          | cons x xs => cases h : (x :: xs).all fun c => isHexN c.toNat <;> simp
+        rcases hb with rfl | rfl <;>
+          simp [-List.all_eq_true, Spec.parseIPv4Number, isNumberLabel, show isDigitN 120 = false by decide,
+            show isDigitN 88 = false by decide, show isOctN 120 = false by decide, show isOctN 88 = false by decide,
+            key]
+      · obtain ⟨hb1, hb2⟩ := not_or.mp hb
+        have hb1' : (b == 'x') = false := by simpa using hb1
+        have hb2' : (b == 'X') = false := by simpa using hb2
+        simp [-List.all_eq_true, Spec.parseIPv4Number, isNumberLabel, hb1', hb2']
+        generalize (rest.all fun c => isDigitN c.toNat) = D
+        generalize (rest.all fun c => isOctN c.toNat) = O
+        cases D <;> cases O <;> cases isDigitN b.toNat <;> cases isOctN b.toNat <;> simp
+    · have ha' : (a == '0') = false := by simpa using ha
+      simp [-List.all_eq_true, Spec.parseIPv4Number, isNumberLabel, ha']
+
+/-- "Ends in a number", declaratively: the last label (after dropping one trailing empty label) is all decimal digits,
+    or `0x`/`0X` followed by hex digits (possibly none), or `0` followed by octal digits. -/
+theorem C07_ends_in_number_iff (s : Str) :
+    Spec.endsInANumber s = match lastLabel s with | some l => isNumberLabel l | none => false := by
+  unfold Spec.endsInANumber lastLabel
+  simp only []
+  cases List.getLast? _ with
+  | none => rfl
+  | some l => exact label_eq l
+
+private theorem all_false_of_mem {p : Char → Bool} {l : Str} {c : Char} (hc : c ∈ l) (hp : p c = false) :
+    l.all p = false := by
+  rw [List.all_eq_false]
+  exact ⟨c, hc, by simp [hp]⟩
+
+private theorem not_number_of_mem (l : Str) (c : Char) (hc : c ∈ l) (h1 : isHexN c.toNat = false)
+    (h2 : isDigitN c.toNat = false) (h3 : isOctN c.toNat = false) (h0 : c ≠ '0') (hx : c ≠ 'x') (hX : c ≠ 'X') :
+    isNumberLabel l = false := by
+  have hD : l.all (fun c => isDigitN c.toNat) = false := all_false_of_mem hc h2
+  match l, hc, hD with
+  | [a], _, hD => simp [isNumberLabel, hD]
+  | a :: b :: rest, hc, hD =>
+    simp only [isNumberLabel, hD, Bool.and_false, Bool.false_or, List.take, List.drop, List.head?]
+    by_cases ha : a = c
+    · subst ha
+      have e0 : (a == '0') = false := by simpa using h0
+      simp [e0]
+    · have hc' : c ∈ b :: rest := by
+        rcases List.mem_cons.mp hc with h | h
+        · exact absurd h.symm ha
+        · exact h
+      have hO : (b :: rest).all (fun c => isOctN c.toNat) = false := all_false_of_mem hc' h3
+      rw [hO]
+      by_cases hb : b = c
+      · subst hb
+        have ex : (b == 'x') = false := by simpa using hx
+        have eX : (b == 'X') = false := by simpa using hX
+        simp [ex, eX]
+      · have hc'' : c ∈ rest := by
+          rcases List.mem_cons.mp hc' with h | h
+          · exact absurd h.symm hb
+          · exact h
+        have hH : rest.all (fun c => isHexN c.toNat) = false := all_false_of_mem hc'' h1
+        rw [hH]
+        simp
+
+/-- a label containing a sign is never a number -/
+theorem C07_no_sign (l : Str) (h : '+' ∈ l ∨ '-' ∈ l) : isNumberLabel l = false := by
+  rcases h with h | h
+  · exact not_number_of_mem l '+' h (by decide) (by decide) (by decide) (by decide) (by decide) (by decide)
+  · exact not_number_of_mem l '-' h (by decide) (by decide) (by decide) (by decide) (by decide) (by decide)
+
+example : '-' ∈ "1.-2".toList := by decide
+example : isNumberLabel "0x1F".toList = true := by decide
+example : isNumberLabel "09".toList = true := by decide
+example : isNumberLabel "0x".toList = true := by decide
+example : isNumberLabel "-2".toList = false := by decide
+example : lastLabel "a.09.".toList = some "09".toList := by decide
+example : lastLabel ".".toList = some [] := by decide
+example : lastLabel "".toList = none := by decide
+
+/-! ### the IPv4 parser -/
+
+private theorem numErr_bne (e : NumErr) : (e != .none) = true ↔ e ≠ .none := by cases e <;> decide
+
+private theorem part_cases (cfg : Cfg) (u : Url) (p : Bytes) :
+    ((parseIPv4Number cfg u p).err = .none ∧ Spec.parseIPv4Number (asStr p) = some (parseIPv4Number cfg u p).n) ∨
+    ((parseIPv4Number cfg u p).err ≠ .none ∧
+      (Spec.parseIPv4Number (asStr p) = none ∨ ∃ v, Spec.parseIPv4Number (asStr p) = some v ∧ v ≥ 2 ^ 63)) := by
+  by_cases hp : p = []
+  · subst hp
+    right
+    exact ⟨by simp [parseIPv4Number], Or.inl rfl⟩
+  · obtain ⟨h1, h2, h3, h4, -⟩ := C07_number_conforms cfg u p hp
+    generalize parseIPv4Number cfg u p = r at *
+    cases hr : r.err with
+    | none => exact Or.inl ⟨rfl, h2 hr⟩
+    | verr => exact absurd hr h4
+    | «syntax» => exact Or.inr ⟨by simp, Or.inl (h1.mp hr)⟩
+    | range => exact Or.inr ⟨by simp, Or.inr (h3 hr)⟩
+
+private theorem hErr_nonfatal (cfg : Cfg) (hc : cfg.failOnVErr = false) (u : Url) (t : ErrT) (k : Url → HR) :
+    hErr cfg u t false k = k (record cfg u t false) := by simp [hErr, stops, hc]
+
+private theorem hErr_fatal (cfg : Cfg) (u : Url) (t : ErrT) (k : Url → HR) :
+    hErr cfg u t true k = ⟨record cfg u t true, .err ⟨t, true⟩⟩ := by simp [hErr, stops]
+
+private theorem rangeWarn_nonfatal (cfg : Cfg) (hc : cfg.failOnVErr = false) (l : List Nat) :
+    ∀ u, (ipv4RangeWarn cfg u l).2 = false := by
+  induction l with
+  | nil => intro u; rfl
+  | cons n rest ih =>
+    intro u
+    unfold ipv4RangeWarn
+    simp only [stops, hc, Bool.or_self, Bool.false_eq_true, if_false]
+    split <;> exact ih _
+
+private theorem parts_cases (cfg : Cfg) (hc : cfg.failOnVErr = false) (parts : List Bytes) :
+    ∀ (u : Url) (acc : List Nat),
+    ((parseIPv4Parts cfg u parts acc).err = none ∧
+      (∀ p ∈ parts, (Spec.parseIPv4Number (asStr p)).isSome = true) ∧
+      (parseIPv4Parts cfg u parts acc).nums = acc ++ parts.map (fun p => (Spec.parseIPv4Number (asStr p)).getD 0)) ∨
+    ((∃ e, (parseIPv4Parts cfg u parts acc).err = some e ∧ e.failure = true) ∧
+      ∃ p ∈ parts, Spec.parseIPv4Number (asStr p) = none ∨
+        ∃ v, Spec.parseIPv4Number (asStr p) = some v ∧ v ≥ 2 ^ 63) := by
+  induction parts with
+  | nil => intro u acc; left; simp [parseIPv4Parts]
+  | cons p rest ih =>
+    intro u acc
+    unfold parseIPv4Parts
+    simp only [stops, hc, Bool.or_self, Bool.and_false, Bool.false_eq_true, if_false]
+    rcases part_cases cfg u p with ⟨he, hs⟩ | ⟨hne, hbad⟩
+    · have hb : ((parseIPv4Number cfg u p).err != .none) = false := by
+        rw [Bool.eq_false_iff, Ne, numErr_bne]; simp [he]
+      simp only [hb, Bool.false_eq_true, if_false]
+      rcases ih (if (parseIPv4Number cfg u p).ve = true then
+          record cfg (parseIPv4Number cfg u p).url .IPv4NonDecimalPart false else (parseIPv4Number cfg u p).url)
+          (acc ++ [(parseIPv4Number cfg u p).n]) with ⟨h1, h2, h3⟩ | ⟨h1, q, hq, h2⟩
+      · left
+        refine ⟨h1, ?_, ?_⟩
+        · intro q hq
+          rcases List.mem_cons.mp hq with rfl | hq
+          · simp [hs]
+          · exact h2 q hq
+        · rw [h3]; simp [hs]
+      · right
+        exact ⟨h1, q, List.mem_cons_of_mem _ hq, h2⟩
+    · have hb : ((parseIPv4Number cfg u p).err != .none) = true := (numErr_bne _).mpr hne
+      simp only [hb, if_true]
+      right
+      exact ⟨⟨_, rfl, rfl⟩, p, List.mem_cons_self, hbad⟩
+
+/-- the inner continuation `afterCount` of the model's `parseIPv4`, as a function of the (trimmed) parts -/
+private def afterCount (cfg : Cfg) (parts : List Bytes) (u : Url) : HR :=
+  let pr := parseIPv4Parts cfg u parts []
+  match pr.err with
+  | some e => ⟨pr.url, .err e⟩
+  | none =>
+    let w := ipv4RangeWarn cfg pr.url pr.nums
+    if w.2 then ⟨w.1, .err ⟨.IPv4OutOfRangePart, false⟩⟩
+    else
+      let nums := pr.nums
+      if nums.dropLast.any (· > 255) then ⟨record cfg w.1 .IPv4OutOfRangePart true, .err ⟨.IPv4OutOfRangePart, true⟩⟩
+      else match nums.getLast? with
+        | none => ⟨w.1, .panic 1⟩
+        | some last =>
+          if last ≥ 256 ^ (5 - nums.length) then
+            ⟨record cfg w.1 .IPv4OutOfRangePart true, .err ⟨.IPv4OutOfRangePart, true⟩⟩
+          else
+            let front := nums.dropLast
+            let v := (List.range front.length).foldl (fun acc i => acc + front[i]! * 256 ^ (3 - i)) last
+            ⟨w.1, .ok (ipv4String (v % 2 ^ 32))⟩
+
+private theorem parseIPv4_eq (cfg : Cfg) (u : Url) (input : Bytes) :
+    parseIPv4 cfg u input =
+      (let parts0 := splitOn 0x2e input
+       let lastEmpty := parts0.getLast? == some []
+       let parts := if lastEmpty && parts0.length > 1 then parts0.dropLast else parts0
+       let afterEmpty : Url → HR := fun u =>
+         if parts.length > 4 then hErr cfg u .IPv4TooManyParts true (afterCount cfg parts) else afterCount cfg parts u
+       if lastEmpty then hErr cfg u .IPv4EmptyPart false afterEmpty else afterEmpty u) := rfl
+
+private theorem tail_out (cfg : Cfg) (w1 : Url) (nums : List Nat) :
+    (if nums.dropLast.any (· > 255) then
+        (⟨record cfg w1 .IPv4OutOfRangePart true, .err ⟨.IPv4OutOfRangePart, true⟩⟩ : HR)
+      else match nums.getLast? with
+        | none => ⟨w1, .panic 1⟩
+        | some last =>
+          if last ≥ 256 ^ (5 - nums.length) then
+            ⟨record cfg w1 .IPv4OutOfRangePart true, .err ⟨.IPv4OutOfRangePart, true⟩⟩
+          else
+            let front := nums.dropLast
+            let v := (List.range front.length).foldl (fun acc i => acc + front[i]! * 256 ^ (3 - i)) last
+            ⟨w1, .ok (ipv4String (v % 2 ^ 32))⟩).out =
+    match combine nums with
+    | some v => .ok (ipv4String (v % 2 ^ 32))
+    | none => if nums.getLast? = none then .panic 1 else .err ⟨.IPv4OutOfRangePart, true⟩ := by
+  unfold combine
+  split
+  · rename_i hany
+    cases nums with
+    | nil => simp at hany
+    | cons x xs =>
+      have : (x :: xs).getLast? ≠ none := by simp
+      simp [this]
+  · cases nums.getLast? with
+    | none => rfl
+    | some last =>
+      simp only []
+      split <;> simp
+
+/-- the standard's steps 5–11 on the trimmed parts -/
+private def specTail (parts : List Str) : Option Nat :=
+  if (parts.map Spec.parseIPv4Number).any (·.isNone) then none
+  else combine ((parts.map Spec.parseIPv4Number).map (·.getD 0))
+
+private theorem afterCount_conforms (cfg : Cfg) (hc : cfg.failOnVErr = false) (parts : List Bytes) (hne : parts ≠ [])
+    (hlen : parts.length ≤ 4) (u : Url) :
+    match (afterCount cfg parts u).out, specTail (parts.map asStr) with
+    | .ok h, some n => n < 2 ^ 32 ∧ h = ipv4String n
+    | .err e, none => e.failure = true
+    | _, _ => False := by
+  have hvals : ((parts.map asStr).map Spec.parseIPv4Number).map (·.getD 0) =
+      parts.map (fun p => (Spec.parseIPv4Number (asStr p)).getD 0) := by
+    simp [List.map_map, Function.comp_def]
+  rcases parts_cases cfg hc parts u [] with ⟨h1, h2, h3⟩ | ⟨⟨e, h1, hf⟩, q, hq, h2⟩
+  · have hany : ((parts.map asStr).map Spec.parseIPv4Number).any (·.isNone) = false := by
+      rw [List.any_eq_false]
+      intro o ho
+      simp only [List.map_map, List.mem_map, Function.comp] at ho
+      obtain ⟨p, hp, rfl⟩ := ho
+      have := h2 p hp
+      cases h : Spec.parseIPv4Number (asStr p) <;> simp_all
+    have hout : (afterCount cfg parts u).out =
+        match combine (parseIPv4Parts cfg u parts []).nums with
+        | some v => .ok (ipv4String (v % 2 ^ 32))
+        | none => if (parseIPv4Parts cfg u parts []).nums.getLast? = none then .panic 1
+                  else .err ⟨.IPv4OutOfRangePart, true⟩ := by
+      unfold afterCount
+      simp only [h1, rangeWarn_nonfatal cfg hc, Bool.false_eq_true, if_false]
+      exact tail_out cfg _ _
+    rw [hout, h3, List.nil_append]
+    simp only [specTail, hany, Bool.false_eq_true, if_false, hvals]
+    generalize hv : parts.map (fun p => (Spec.parseIPv4Number (asStr p)).getD 0) = vals
+    have hvl : vals.length = parts.length := by rw [← hv]; simp
+    cases hcomb : combine vals with
+    | none =>
+      have : vals.getLast? ≠ none := by
+        cases vals with
+        | nil => cases parts <;> simp_all
+        | cons x xs => simp
+      simp [this]
+    | some v =>
+      have hlt := combine_lt vals (by omega) v hcomb
+      simp only []
+      rw [Nat.mod_eq_of_lt hlt]
+      exact ⟨hlt, rfl⟩
+  · have hout : (afterCount cfg parts u).out = .err e := by
+      unfold afterCount
+      simp only [h1]
+    have hspec : specTail (parts.map asStr) = none := by
+      unfold specTail
+      split
+      · rfl
+      · rename_i hany
+        rcases h2 with h2 | ⟨v, hv, hbig⟩
+        · exfalso
+          apply hany
+          rw [List.any_eq_true]
+          exact ⟨none, by simp only [List.map_map, List.mem_map, Function.comp]; exact ⟨q, hq, h2⟩, rfl⟩
+        · rw [hvals]
+          apply combine_big _ v
+          · rw [List.mem_map]
+            exact ⟨q, hq, by simp [hv]⟩
+          · have : (2 : Nat) ^ 32 ≤ 2 ^ 63 := by decide
+            omega
+    rw [hout, hspec]
+    exact hf
+
+private theorem splitOn_ne_nil (sep : UInt8) (s : Bytes) : splitOn sep s ≠ [] := by
+  cases s with
+  | nil => simp [splitOn]
+  | cons x xs =>
+    unfold splitOn
+    split
+    · simp
+    · split <;> simp
+
+private theorem trimmed_ne_nil (L : List Bytes) (h : L ≠ []) :
+    (if (L.getLast? == some [] && decide (L.length > 1)) then L.dropLast else L) ≠ [] := by
+  split
+  · rename_i hcond
+    simp only [Bool.and_eq_true, decide_eq_true_eq] at hcond
+    intro h0
+    have := congrArg List.length h0
+    simp at this
+    omega
+  · exact h
+
+/-- IPv4 parser conformance for the default error configuration: the Go code never panics, fails exactly when the
+    standard's IPv4 parser fails (with a fatal error), and otherwise returns the serialization of the same address. -/
+theorem C07_parse_conforms (cfg : Cfg) (u : Url) (s : Bytes) (hc : cfg.failOnVErr = false) :
+    match (parseIPv4 cfg u s).out, Spec.parseIPv4 (asStr s) with
+    | .ok h, some n => n < 2^32 ∧ h = ipv4String n
+    | .err e, none => e.failure = true
+    | _, _ => False := by
+  rw [parseIPv4_eq, spec_parseIPv4_eq, splitStr_asStr]
+  simp only [trimP_map]
+  have hP := trimmed_ne_nil (splitOn 0x2e s) (splitOn_ne_nil _ _)
+  generalize (if ((splitOn 0x2e s).getLast? == some [] && decide ((splitOn 0x2e s).length > 1)) then
+    (splitOn 0x2e s).dropLast else splitOn 0x2e s) = P at hP
+  have key : ∀ u' : Url,
+      match (if P.length > 4 then hErr cfg u' .IPv4TooManyParts true (afterCount cfg P) else afterCount cfg P u').out,
+        (if (P.map asStr).length > 4 then none else specTail (P.map asStr)) with
+      | .ok h, some n => n < 2^32 ∧ h = ipv4String n
+      | .err e, none => e.failure = true
+      | _, _ => False := by
+    intro u'
+    rw [List.length_map]
+    by_cases h4 : P.length > 4
+    · simp [h4, hErr_fatal]
+    · simp only [h4, if_false]
+      exact afterCount_conforms cfg hc P hP (by omega) u'
+  rw [hErr_nonfatal cfg hc]
+  by_cases hle : ((splitOn 0x2e s).getLast? == some []) = true
+  · simp only [hle, if_true]
+    exact key _
+  · simp only [hle]
+    exact key _
+
+example : ({} : Cfg).failOnVErr = false := rfl
+example : (parseIPv4 {} {} (lit "1.2.3.4")).out = .ok (lit "1.2.3.4") := by decide +kernel
+example : Spec.parseIPv4 "0x7f.1".toList = some 2130706433 := by decide +kernel
+example : (parseIPv4 {} {} (lit "1.2.3.4.5")).out = .err ⟨.IPv4TooManyParts, true⟩ := by decide +kernel
+example : (parseIPv4 {} {} (lit "0x8000000000000000")).out = .err ⟨.IPv4NonNumericPart, true⟩ := by decide +kernel
+
+/-- the hypothesis `failOnVErr = false` is necessary: with `failOnVErr` the Go code stops at the first validation error
+    (failure flag `false`) where the standard's parser succeeds -/
+example : (parseIPv4 { failOnVErr := true } {} (lit "1.2.3.4.")).out = .err ⟨.IPv4EmptyPart, false⟩ ∧
+    Spec.parseIPv4 "1.2.3.4.".toList = some 16909060 := by decide +kernel
+
+/-! ### the serializer -/
+
+private theorem itoa_utf8_fin : ∀ k : Fin 256, itoa k.val = utf8 (Spec.natToStr k.val) := by decide +kernel
+
+private theorem itoa_utf8 (k : Nat) (h : k < 256) : itoa k = utf8 (Spec.natToStr k) := itoa_utf8_fin ⟨k, h⟩
+
+private theorem utf8_append (a b : Str) : utf8 (a ++ b) = utf8 a ++ utf8 b := by simp [utf8]
+
+private theorem utf8_dot : utf8 ['.'] = [0x2e] := by decide
+
+/-- the Go serializer produces the UTF-8 encoding of the standard's serialization -/
+theorem C07_serialize (n : Nat) : ipv4String n = utf8 (Spec.serializeIPv4 n) := by
+  unfold ipv4String Spec.serializeIPv4
+  simp only [utf8_append, utf8_dot]
+  rw [itoa_utf8 _ (Nat.mod_lt _ (by decide)), itoa_utf8 _ (Nat.mod_lt _ (by decide)),
+    itoa_utf8 _ (Nat.mod_lt _ (by decide)), itoa_utf8 _ (Nat.mod_lt _ (by decide))]
+
+/-- for a 32-bit address the first part needs no reduction modulo 256 -/
+theorem C07_serialize_shape (n : Nat) (h : n < 2^32) : Spec.serializeIPv4 n =
+    Spec.natToStr (n / 2^24) ++ ['.'] ++ Spec.natToStr (n / 2^16 % 256) ++ ['.'] ++ Spec.natToStr (n / 2^8 % 256) ++
+      ['.'] ++ Spec.natToStr (n % 256) := by
+  unfold Spec.serializeIPv4
+  rw [Nat.mod_eq_of_lt (a := n / 2 ^ 24) (by omega)]
+
+example : (2130706433 : Nat) < 2 ^ 32 := by decide
+example : Spec.serializeIPv4 2130706433 = "127.0.0.1".toList := by decide +kernel
+example : ipv4String 2130706433 = lit "127.0.0.1" := by decide +kernel
+
+/-! ### fixed point -/
+
+private theorem natToStr_facts_fin : ∀ k : Fin 256,
+    Spec.natToStr k.val ≠ [] ∧ (Spec.natToStr k.val).all (fun c => isDigitN c.toNat) = true ∧
+    '.' ∉ Spec.natToStr k.val ∧ Spec.parseIPv4Number (Spec.natToStr k.val) = some k.val := by decide +kernel
+
+private theorem natToStr_facts (k : Nat) (h : k < 256) :
+    Spec.natToStr k ≠ [] ∧ (Spec.natToStr k).all (fun c => isDigitN c.toNat) = true ∧
+    '.' ∉ Spec.natToStr k ∧ Spec.parseIPv4Number (Spec.natToStr k) = some k := natToStr_facts_fin ⟨k, h⟩
+
+private theorem splitStr_no_sep (sep : Char) (l : Str) (h : sep ∉ l) : Spec.splitStr sep l = [l] := by
+  induction l with
+  | nil => rfl
+  | cons x xs ih =>
+    have hx : (x == sep) = false := by
+      simp only [beq_eq_false_iff_ne, ne_eq]; intro e; exact h (by simp [e])
+    have hxs : sep ∉ xs := fun hm => h (List.mem_cons_of_mem _ hm)
+    simp [Spec.splitStr, hx, ih hxs]
+
+private theorem splitStr_append (sep : Char) (l r : Str) (h : sep ∉ l) :
+    Spec.splitStr sep (l ++ sep :: r) = l :: Spec.splitStr sep r := by
+  induction l with
+  | nil => simp [Spec.splitStr]
+  | cons x xs ih =>
+    have hx : (x == sep) = false := by
+      simp only [beq_eq_false_iff_ne, ne_eq]; intro e; exact h (by simp [e])
+    have hxs : sep ∉ xs := fun hm => h (List.mem_cons_of_mem _ hm)
+    simp [Spec.splitStr, hx, ih hxs]
+
+private theorem split_serialized (A B C D : Str) (hA : '.' ∉ A) (hB : '.' ∉ B) (hC : '.' ∉ C) (hD : '.' ∉ D) :
+    Spec.splitStr '.' (A ++ ['.'] ++ B ++ ['.'] ++ C ++ ['.'] ++ D) = [A, B, C, D] := by
+  simp only [List.append_assoc, List.cons_append, List.nil_append]
+  rw [splitStr_append _ _ _ hA, splitStr_append _ _ _ hB, splitStr_append _ _ _ hC, splitStr_no_sep _ _ hD]
+
+/-- the canonical text of an IPv4 address ends in a number and parses back to the same address -/
+theorem C07_fixed_point (n : Nat) (h : n < 2^32) :
+    Spec.endsInANumber (Spec.serializeIPv4 n) = true ∧ Spec.parseIPv4 (Spec.serializeIPv4 n) = some n := by
+  obtain ⟨-, -, hA, pA⟩ := natToStr_facts (n / 2 ^ 24 % 256) (Nat.mod_lt _ (by decide))
+  obtain ⟨-, -, hB, pB⟩ := natToStr_facts (n / 2 ^ 16 % 256) (Nat.mod_lt _ (by decide))
+  obtain ⟨-, -, hC, pC⟩ := natToStr_facts (n / 2 ^ 8 % 256) (Nat.mod_lt _ (by decide))
+  obtain ⟨eD, dD, hD, pD⟩ := natToStr_facts (n % 256) (Nat.mod_lt _ (by decide))
+  have hsplit := split_serialized _ _ _ _ hA hB hC hD
+  have hDe : (Spec.natToStr (n % 256) == []) = false := by simpa using eD
+  have hDi : (Spec.natToStr (n % 256)).isEmpty = false := by
+    cases hh : Spec.natToStr (n % 256) <;> simp_all
+  constructor
+  · unfold Spec.endsInANumber Spec.serializeIPv4
+    rw [hsplit]
+    simp [hDe, hDi, dD]
+  · rw [spec_parseIPv4_eq]
+    unfold Spec.serializeIPv4
+    rw [hsplit]
+    simp [hDe, pA, pB, pC, pD, combine_4]
+    omega
+
+example : (3232235777 : Nat) < 2 ^ 32 := by decide
+example : Spec.endsInANumber (Spec.serializeIPv4 3232235777) = true ∧
+    Spec.parseIPv4 (Spec.serializeIPv4 3232235777) = some 3232235777 := by decide +kernel
 
 end WhatwgUrl.Props.C07
+
+section AxiomCheck
+open WhatwgUrl.Props.C07
+#print axioms C07_number_conforms
+#print axioms C07_ends_in_number_conforms
+#print axioms C07_ends_in_number_iff
+#print axioms C07_no_sign
+#print axioms C07_parse_conforms
+#print axioms C07_serialize
+#print axioms C07_serialize_shape
+#print axioms C07_fixed_point
+end AxiomCheck
